@@ -815,6 +815,68 @@ def set_keys_filter(interp, cx, fr, e):
     return res
 
 
+def read_guarded_append_callback(interp, cx, cb, spec, elem_of, extra_env=None):
+    """Read a visit callback of the shape
+
+        def cb(a, node):
+            if G1: return            (zero or more guards)
+            x = E                    (zero or more plain assignments)
+            if D: <list>.append(node)
+
+    and return (<the list object>, pred) where pred(node_term) is the condition under which the callback appends the
+    visited node: not G1 and ... and D, with the assignments substituted. Every expression is evaluated in element mode
+    on a generic node (elem_of(term) wraps a term as the node value); anything else in the body makes the contract stale.
+    """
+    from .engine import Closure, Env, Frame
+    from .values import truth as _truth
+
+    if not isinstance(cb, Closure) or not isinstance(cb.node, ast.FunctionDef) or len(cb.node.args.args) != 2:
+        raise Unsupported("visit callback is not a nested def of two parameters")
+    fn = cb.node
+    pn = fn.args.args[1].arg
+    body = [st for st in fn.body if not (isinstance(st, ast.Expr) and isinstance(st.value, ast.Constant))]
+    if not body or not isinstance(body[-1], ast.If) or body[-1].orelse or len(body[-1].body) != 1:
+        raise ContractStale("the visit callback does not end in `if cond: list.append(node)`")
+    last = body[-1].body[0]
+    ok = (isinstance(last, ast.Expr) and isinstance(last.value, ast.Call) and isinstance(last.value.func, ast.Attribute) and last.value.func.attr == "append"
+          and isinstance(last.value.func.value, ast.Name) and len(last.value.args) == 1 and isinstance(last.value.args[0], ast.Name) and last.value.args[0].id == pn)  # fmt: skip
+    if not ok:
+        raise ContractStale("the visit callback does not append the visited node itself")
+    target = cb.env.lookup(last.value.func.value.id)
+    steps = []
+    for st in body[:-1]:
+        if isinstance(st, ast.If) and not st.orelse and len(st.body) == 1 and isinstance(st.body[0], ast.Return) and st.body[0].value is None:
+            steps.append(("guard", st.test))
+        elif isinstance(st, ast.Assign) and len(st.targets) == 1 and isinstance(st.targets[0], ast.Name):
+            steps.append(("let", st.targets[0].id, st.value))
+        else:
+            raise ContractStale(f"statement of another shape in the visit callback (line {st.lineno})")
+    steps.append(("cond", body[-1].test))
+
+    def pred(node_t):
+        sub = Frame(cb.modinfo, spec.qual, Env(cb.env), spec=spec)
+        sub.env.set(fn.args.args[0].arg, SStr(z3.String(fresh_name("visit_path"))))
+        sub.env.set(pn, elem_of(node_t))
+        for k, v in (extra_env or {}).items():
+            sub.env.set(k, v)
+        conj = []
+        for step in steps:
+            if step[0] == "let":
+                vals, fails, axioms = interp.eval_exprs_on_element(cx, sub, None, None, [step[2]], node_t)
+                if fails or axioms:
+                    raise Unsupported("an assignment in the visit callback may raise")
+                sub.env.set(step[1], vals[0])
+                continue
+            vals, fails, axioms = interp.eval_exprs_on_element(cx, sub, None, None, [step[1]], node_t)
+            if fails or axioms:
+                raise Unsupported("a condition in the visit callback may raise")
+            c = as_bool(cx, _truth(cx, vals[0]))
+            conj.append(z3.Not(c) if step[0] == "guard" else c)
+        return z3.And(*conj)
+
+    return target, pred
+
+
 def dict_items_filter(interp, cx, fr, e):
     """Schema for `{k: v for k, v in [sorted](MAP.items()[, key=...]) if P(k, v)}` over a symbolic dict:
     the result maps exactly the keys of MAP satisfying P to their values (iteration order is not modelled)."""
